@@ -3,7 +3,9 @@ C15 (AUTHENTICATE accepted by an independent MS-NLMP server), C16 (sealing per M
 C07 (hostile CHALLENGE bytes), C04 (NTLM field offsets), C17 (password enters only through MD4), C01 (gss_unwrapex acceptance condition).
 
 Every function of ntlm.rs is extracted and verified, except
-  * md4 / md5 / hmac_md5 / unicode: Stubs (external crates md4, md-5, hmac; std encode_utf16) against uninterpreted spec functions;
+  * md4 / md5 / hmac_md5: Stubs (external crates md4, md-5, hmac) against uninterpreted spec functions;
+  * unicode: Stub verified_in="text" (its real body is proved against the identical clause in unit text, over the engine contract that has the
+    `an in-memory sink never fails` clause E1 which `.unwrap()` needs; prelude/model.rs' Message::write does not have it, so it cannot be a verified Fn here);
   * model::rnd::random: trusted Raw (only the length of the result is specified);
   * the expression `user.to_uppercase() + &domain` in ntowfv2 / ntowfv2_hash: Verus dies on `String + &str` (internal error), so the expression is
     rewritten (declared R6 body_sub) to the trusted helper `upper_concat` (Raw std_string); the rest of both bodies is verified;
@@ -177,7 +179,8 @@ STUBS = {
     "md4": dict(why="md4 crate", ensures=["r@ == md4_spec(data@)"]),
     "md5": dict(why="md-5 crate", ensures=["r@ == md5_spec(data@)"]),
     "hmac_md5": dict(why="hmac + md-5 crates", ensures=["r@ == hmac_md5_spec(key@, data@)"]),
-    "unicode": dict(why="std str::encode_utf16 iterator", ensures=["r@ == utf16le(data@)"]),
+    # proved for the real body in unit text (specs/text.py NTLM_UNICODE; the clause text is compared on every assembly of unit text)
+    "unicode": dict(verified_in="text", ensures=["r@ == utf16le(data@)"]),
 }
 
 A(Raw(r"""
@@ -564,7 +567,7 @@ IMPL_GSS = "impl GenericSecurityService for NTLMv2SecurityInterface"
 
 # ---------------- builders
 F("version", ret="c", props=["C04"], fuel=8,
-  ensures=shape_clauses(NTLM, "version", res="c") + [("C04", "view", "c.mv() == version_view()"), ("C04", "bytes", "ser(c.mv()) =~= version_bytes()"),
+  ensures=shape_clauses(NTLM, "version", res="c") + [("C04", "view", "c.mv() == version_view()"), ("C04,C15", "bytes", "ser(c.mv()) =~= version_bytes()"),
                                                     (None, "static", "is_static(c.mv()) && ser(c.mv()).len() == 8")],
   post="""proof {
         let f = c.fields();
@@ -582,7 +585,7 @@ F("version", ret="c", props=["C04"], fuel=8,
         assert(is_static(f[3].1));
   }""")
 F("negotiate_message", ret="c", props=["C04", "C03"], closures={1: FLAGS_CLOSURE},
-  ensures=shape_clauses(NTLM, "negotiate_message", res="c") + [("C04", "view", "c.mv() == negotiate_view(flags)"), ("C04", "bytes", "ser(c.mv()) == negotiate_bytes(flags)")],
+  ensures=shape_clauses(NTLM, "negotiate_message", res="c") + [("C04", "view", "c.mv() == negotiate_view(flags)"), ("C04,C15", "bytes", "ser(c.mv()) == negotiate_bytes(flags)")],
   post="proof { let f = c.fields(); assert(f[0].1->Bytes_0 =~= ntlmssp()); assert(f =~= negotiate_view(flags)->Comp_0); lemma_negotiate_view_bytes(flags); }")
 F("challenge_message", ret="c", props=["C07"], closures={1: FLAGS_CLOSURE},
   ensures=shape_clauses(NTLM, "challenge_message", res="c") + [("C07", "view", "c.mv() == challenge_view()"),
@@ -595,10 +598,10 @@ AUTH_DESCS = "auth_descs(%s, flags)" % ", ".join("%s as int" % l for l in _AL)
 F("authenticate_message", props=["C04", "C15", "C07"], body_sub=CONCAT_VECS, closures={1: FLAGS_CLOSURE},
   requires=[" + ".join(_AL) + " <= 0x7fffffff"],
   ensures=shape_clauses(NTLM, "authenticate_message", res="r.0") + [
-      ("C04", "payload", "r.1@ =~= " + " + ".join(n + "@" for n in _AN)),
-      ("C04", "layout", "r.0.mv() == auth_view(auth_vals(r.0.mv()), flags)"),
-      ("C04", "bytes", "ser(r.0.mv()) == auth_bytes_raw(auth_vals(r.0.mv()), flags) && ser(r.0.mv()).len() == auth_fixed_len(flags)"),
-      ("C04", "descriptors", "%s ==> auth_vals(r.0.mv()) == %s" % (AUTH_SMALL, AUTH_DESCS))],
+      ("C04,C15", "payload", "r.1@ =~= " + " + ".join(n + "@" for n in _AN)),
+      ("C04,C15", "layout", "r.0.mv() == auth_view(auth_vals(r.0.mv()), flags)"),
+      ("C04,C15", "bytes", "ser(r.0.mv()) == auth_bytes_raw(auth_vals(r.0.mv()), flags) && ser(r.0.mv()).len() == auth_fixed_len(flags)"),
+      ("C04,C15", "descriptors", "%s ==> auth_vals(r.0.mv()) == %s" % (AUTH_SMALL, AUTH_DESCS))],
   pre="proof { reveal_with_fuel(flat, 8); }",
   post="""proof { let f = r.0.fields(); let v = auth_vals(r.0.mv()); assert(f.len() == 22); assert(v.len() == 6);
    assert(f[0].1->Check_0->Bytes_0 =~= ntlmssp());
@@ -702,12 +705,12 @@ def T(name, hdr, why, **kw):
 NAME_BOUND = 0x07ffffff
 T("read_challenge_message", IMPL_AUTH,
   why="verified as Ntlm::read_challenge_message_checked under `negotiate_message is Some` (create_negotiate_message was called before: cssp_connect does) and domain/user names below 2^27 characters",
-  props=["C07", "C15"], keys=True, fuel=5,
+  props=["C07", "C15", "C04"], keys=True, fuel=5,
   requires=["old(self).negotiate_message is Some", "old(self).domain@.len() <= %d && old(self).user@.len() <= %d" % (NAME_BOUND, NAME_BOUND)],
   ensures=[("C15", "session-key-set", "r is Ok ==> final(self).exported_session_key is Some && final(self).exported_session_key->Some_0@.len() == 16"),
            (None, "frame", "final(self).negotiate_message == old(self).negotiate_message && final(self).response_key_nt == old(self).response_key_nt && final(self).response_key_lm == old(self).response_key_lm"
                            " && final(self).domain == old(self).domain && final(self).user == old(self).user && final(self).password == old(self).password"),
-           ("C15", "token", """r is Ok ==> exists|sc: Seq<u8>, cc: Seq<u8>, time: Seq<u8>, info: Seq<u8>, hdr: Seq<u8>| #[trigger] is_auth_token(r->Ok_0@, old(self).response_key_nt@, old(self).response_key_lm@,
+           ("C15,C04", "token", """r is Ok ==> exists|sc: Seq<u8>, cc: Seq<u8>, time: Seq<u8>, info: Seq<u8>, hdr: Seq<u8>| #[trigger] is_auth_token(r->Ok_0@, old(self).response_key_nt@, old(self).response_key_lm@,
             final(self).domain_spec(), final(self).user_spec(), final(self).exported_session_key->Some_0@, old(self).negotiate_message->Some_0@, request@, sc, cc, time, info, hdr)""")],
   pre="broadcast use axiom_digest_len, axiom_utf8_len, axiom_utf16le_len;",
   hints=[(r"result\.read\(&mut stream\)\?;", 1, """proof {
@@ -777,7 +780,8 @@ UNWRAP_HINTS = [
             assert(first_key(f, "Checksum"@) == 1);
             assert(first_key(f, "SeqNum"@) == 2);
         }"""),
-    (r"Ok\(plaintext_payload\)", 1, """proof {
+    # the function's tail expression (not an early `return Ok(..)`)
+    (r"(?<!return )Ok\(plaintext_payload\)\s*\}\s*$", 1, """proof {
             assert(payload@ == data@.skip(16));
             assert(plaintext_payload@ == rc4::rc4_xor(st, payload@));
             assert(checksum@ == data@.subrange(4, 12));
